@@ -1070,6 +1070,8 @@ class Models:
             return [(st, ("sym", ("is_empty", term_of(dv[0]))))]
         if trait == "std::iter::Iterator" and name in ("zip", "map", "enumerate", "rev", "chain", "take", "by_ref"):
             return [(st, dv[0] if isinstance(dv[0], tuple) and dv[0][0] == "iter" else ("iter", term_of(dv[0]), False))]
+        if trait == "std::iter::Iterator" and name in ("try_fold", "fold") and len(vals) == 3:
+            return self.fold(fr, vals, name, dest_ty, line)
         if trait == "std::iter::Iterator" and name in ("try_for_each", "for_each", "try_fold", "find_map"):
             return self.iterate(fr, vals, name, line)
 
@@ -1215,6 +1217,58 @@ class Models:
                 return [(fr.st, mk_struct({str(i): a for i, a in enumerate(args)}))]
             return self.direct(fr, f, args, [None] * len(args), "?", line, None)
         return self.user_call(fr, fv, args, [], "?", line)
+
+    def fold(self, fr, vals, name, dest_ty, line):
+        """fold / try_fold(init, |acc, x| ..): zero or more applications of the closure threading the accumulator; try_fold stops at
+        the first Break / Err / None the closure returns and wraps the final accumulator in Continue / Ok / Some otherwise."""
+        cl = vals[2]
+        itv = self.deref_val(fr, vals[0])
+        src = itv[1] if isinstance(itv, tuple) and itv[0] == "iter" else term_of(itv)
+        elem = ("sym", ("elem", src))
+        cf = "ControlFlow" in (dest_ty or "")
+        opt = (dest_ty or "").startswith("std::option::Option")
+
+        def done(acc):
+            if name == "fold":
+                return acc
+            if cf:
+                return ("enum", "ControlFlow", "Continue", (acc,))
+            if opt:
+                return ("enum", "Option", "Some", (acc,))
+            return ("enum", "Result", "Ok", (acc,))
+        results = []
+        seen = set()
+        work = [(fr.st.copy(), vals[1])]
+        n = 0
+        while work:
+            s, acc = work.pop()
+            k = (s.key(fr.fid), repr(acc)[:200])
+            if k in seen:
+                continue
+            seen.add(k)
+            n += 1
+            if n > 200:
+                raise AnalysisError("fold: state budget exceeded in %s" % fr.body["uname"])
+            results.append((s.copy(), done(acc)))
+            f2 = Frame(self.I, fr.body, fr.fid, s.copy(), fr.depth)
+            for s2, r in self.apply(f2, cl, [acc, elem], line):
+                if name == "fold":
+                    work.append((s2, r))
+                    continue
+                if isinstance(r, tuple) and r[0] == "enum":
+                    if r[2] in ("Break", "Err", "None"):
+                        results.append((s2, r))
+                    else:
+                        work.append((s2, r[3][0] if r[3] else TOP))
+                else:
+                    f3 = Frame(self.I, fr.body, fr.fid, s2, fr.depth)
+                    names = ["Continue", "Break"] if cf else (["Some", "None"] if opt else ["Ok", "Err"])
+                    for s3, e in self.split_enum(f3, r, names):
+                        if e[2] in ("Break", "Err", "None"):
+                            results.append((s3, e))
+                        else:
+                            work.append((s3, e[3][0] if e[3] else TOP))
+        return results
 
     def iterate(self, fr, vals, name, line):
         """try_for_each / for_each / find_map: zero or more applications of the closure (fixpoint over states)."""
